@@ -340,6 +340,34 @@ func matchRunTable(st *matchState, t matchTable) {
 			}
 		}
 	}
+	// a route registered LATER (requests have been served already, the cache is warm): an exact static path still beats
+	// every dynamic pattern from then on
+	for _, b := range routers {
+		done := false
+		for _, h := range t.Hits["GET"] {
+			q, want := h[0], h[1]
+			if done || want <= 0 || q >= len(st.paths) || st.paths[q] == "/" {
+				continue
+			}
+			if p := st.hdr.Pool[t.T[want-1].P-1]; !strings.ContainsAny(p, "{[") {
+				continue // selected a static route already
+			}
+			done = true
+			path := st.paths[q]
+			var late, got *rux.Route
+			func() {
+				defer func() { _ = recover() }()
+				b.r.Match("GET", path) // (warm)
+				late = b.r.GET(path, nopHandler)
+				got, _, _ = b.r.Match("GET", path)
+			}()
+			compared++
+			if late != nil && got != late {
+				st.report(map[string]any{"kind": "match", "aspect": "selection", "table": texts, "method": "GET", "path": path, "router": b.name,
+					"what": fmt.Sprintf("GET %s on %v (%s) after the static route %s was registered later: it is not selected", path, texts, b.name, path)}, caseDoc)
+			}
+		}
+	}
 	// totality with odd method strings: the index is keyed by method + first path segment without a separator, so a method
 	// string that is a proper prefix of a real method, with a path that supplies the missing letters, lands in a real bucket
 	for _, m := range st.hdr.Methods {
